@@ -113,7 +113,7 @@ bool prop_C02(Tape& t, Report& rep)
         }
         return true;
     }
-    if (t.chance(1, 6))
+    if (t.chance(1, 6) && ucifmt::fmt(&rep).printboard)
     {
         // (c) the real UCI text path: `position fen|startpos ... moves ...` (+ `moves ...`) then `printboard`
         gen::Root game = gen::gen_game(t, &rep, 150);
@@ -272,6 +272,7 @@ void c03_cap_cb(int point, engine::Search* s)
 
 bool c03_uci_bracket(Tape& t, Report& rep)
 {
+    if (!ucifmt::fmt(&rep).printboard || !ucifmt::fmt(&rep).hash) return true;  // output formats not recognised (ucifmt.h)
     rigns::Rig& R = rigns::rig();
     engine::verif::callback = &c03_cap_cb;
     gen::Root root = gen::gen_root(t, &rep, 60);
@@ -340,6 +341,7 @@ bool c03_uci_bracket(Tape& t, Report& rep)
 // so the result depends on the history.
 bool c03_uci_transparency(Tape& t, Report& rep)
 {
+    if (!ucifmt::fmt(&rep).perft) return true;  // needs to recognise the end of perft's output (ucifmt.h)
     rigns::Rig& R = rigns::rig();
     engine::verif::callback = &c03_cap_cb;
     gen::Root root = gen::gen_root(t, &rep, 40);
